@@ -423,13 +423,23 @@ def locate (O : Oracles) : FieldDecl → PyVal → Loc
   -- ClassReference: `Expected <Structure: …>; Got <v>`; inline StructureReference (since /repo 3e97bbb):
   -- `<name>: <the embedded class's own message>` resp. `<name>: Expected a dictionary or Structure; got <v>`
   | .struct c _ _, _ => if c.inline then { shape := .plain } else { shape := .gotLast }
-  | .anyOf _, _ => {}
-  | .oneOf _, _ => {}
-  | .allOf _, _ => {}
+  -- AnyOf / OneOf: `<name>: <v> of type T did not match any field option. …` resp. (OneOf matching
+  -- twice) `<name>: : Got <v>; Matched more than one field option`: the field's own path, then text
+  | .anyOf _, _ => { shape := .plain }
+  | .oneOf _, _ => { shape := .plain }
+  -- AllOf hands its own name to every option: the first rejecting option raises ITS message
+  | .allOf fs, v => locateAll O fs v
+  -- NotField: `<name>: Got <v>; Expected not to match any field definition`
   | .notF _, _ => {}
   | .noneF, _ => {}
   | .anything, _ => {}
 termination_by structural f _ => f
+
+/-- AllOf: the location reported by the first option that rejects `v` -/
+def locateAll (O : Oracles) : List FieldDecl → PyVal → Loc
+  | [], _ => {}
+  | f :: fs, v => if isOk (validate O f v) then locateAll O fs v else locate O f v
+termination_by structural fs _ => fs
 
 /-- positional items: the first rejected element `i`, located by ITS field under `_<i>` -/
 def locateZip (O : Oracles) : Nat → List FieldDecl → List PyVal → Option Loc
@@ -466,6 +476,12 @@ def isPathDecl : FieldDecl → Bool
   | .tuplePos fs _ => allPathDecl fs
   | .mapOf kf vf _ => isPathDecl kf && isPathDecl vf
   | .struct _ _ _ => true
+  -- multi-field wrappers: AnyOf / OneOf / NotField reject at the field itself (any options), AllOf
+  -- through its first rejecting option
+  | .anyOf _ => true
+  | .oneOf _ => true
+  | .notF _ => true
+  | .allOf fs => allPathDecl fs
   | _ => false
 termination_by structural f => f
 def allPathDecl : List FieldDecl → Bool
